@@ -33,7 +33,8 @@ ASSUMPTIONS = [
 NSHARDS = {'quick': 16, 'thorough': 16}
 FAIL_KINDS = ['raise', 'multi_raise', 'compound_raise', 'called', 'called_long', 'gotwant', 'gotwant_eval',
               'gotwant_multi', 'gotwant_second', 'none', 'try_finally', 'try_except_other', 'comprehension',
-              'with_raise', 'nested_try', 'lambda_call', 'while_else', 'compile_return', 'compile_nonlocal', 'bad_repr', 'bad_repr_multi', 'bad_repr_output']
+              'with_raise', 'nested_try', 'lambda_call', 'while_else', 'compile_return', 'compile_nonlocal', 'bad_repr', 'bad_repr_multi', 'bad_repr_output',
+              'runtime_syntax', 'runtime_lineno_attr']
 PREFIXES = ['', '', 'r', 'R', 'u', 'U']
 
 
@@ -110,6 +111,12 @@ def gen_doctest(rng, uid, fail_kind):
         # ... and the statement printed text that is not the want either (finding F46)
         L += ['>>> class BR:', '...     def __repr__(self):', '...         raise RuntimeError("norepr")', '>>> br0 = 1',
               '>>> br1 = 2', '>>> (print("printed"), BR())[1]  # %s' % fm, 'something']
+    elif fail_kind == 'runtime_syntax':
+        # an exception raised at run time that carries a line number of its own (a SyntaxError of compile(): line 1 of
+        # the text given to it): it says nothing about the doctest's lines
+        L += ['>>> rs0 = 1', '>>> rs1 = 2', '>>> compile("x = = 1", "<s>", "exec")  # %s' % fm]
+    elif fail_kind == 'runtime_lineno_attr':
+        L += ['>>> import json', '>>> rl0 = 1', '>>> json.loads("[1," + chr(10) * 7 + " oops]")  # %s' % fm]
     elif fail_kind == 'compile_return':
         # rejected only when the part is compiled: the failing line is the line the SyntaxError names
         L += ['>>> pre_ok = 1', '>>> return 5  # %s' % fm]
